@@ -582,22 +582,52 @@ func runNative(repo, hdir string, vf vectorFile, retries int) ([]nativeRes, erro
 	ovPath := filepath.Join(work, "overlay.json")
 	os.WriteFile(ovPath, ov, 0o644)
 	vecPath := filepath.Join(work, "vectors.json")
-	b, _ := json.Marshal(vf)
-	os.WriteFile(vecPath, b, 0o644)
 	out := make([]nativeRes, len(vf.Vectors))
 	pending := map[int]bool{}
 	for i := range out {
 		pending[i] = true
 	}
-	for attempt := 0; attempt < retries && len(pending) > 0; attempt++ {
-		cmd := exec.Command("go", "test", "-v", "-vet=off", "-count=1", "-timeout", "300s", "-run", "^TestVerifReplay$", "-overlay", ovPath, ".")
+	for attempt := 0; attempt < retries+2 && len(pending) > 0; attempt++ {
+		// vectors still to be (re)run, in index order
+		var idxs []int
+		for i := range vf.Vectors {
+			if pending[i] {
+				idxs = append(idxs, i)
+			}
+		}
+		sub := vectorFile{Tier: vf.Tier}
+		for _, i := range idxs {
+			sub.Vectors = append(sub.Vectors, vf.Vectors[i])
+		}
+		b, _ := json.Marshal(sub)
+		os.WriteFile(vecPath, b, 0o644)
+		args := []string{"test", "-v", "-vet=off", "-count=1", "-timeout", "600s", "-run", "^TestVerifReplay$", "-overlay", ovPath}
+		env := append(goEnv(), "VERIF_VECTORS="+vecPath)
+		race := false
+		for _, v := range sub.Vectors {
+			if strings.HasPrefix(v.Harness, "H_C15") {
+				race = true
+			}
+		}
+		if race {
+			// schedule-dependent counterexamples: real goroutines under the Go race detector, many repetitions
+			args = append(args, "-race")
+			env = append(env, "CGO_ENABLED=1", "VERIF_REPEAT=200")
+		}
+		args = append(args, ".")
+		cmd := exec.Command("go", args...)
 		cmd.Dir = repo
-		cmd.Env = append(goEnv(), "VERIF_VECTORS="+vecPath)
+		cmd.Env = env
 		outb, err := cmd.CombinedOutput()
 		text := string(outb)
 		got := 0
+		raceSeen := false
+		seenIdx := map[int]bool{}
 		for _, line := range strings.Split(text, "\n") {
 			line = strings.TrimSpace(line)
+			if strings.Contains(line, "WARNING: DATA RACE") {
+				raceSeen = true
+			}
 			if !strings.HasPrefix(line, "VERIF-RESULT ") {
 				continue
 			}
@@ -605,23 +635,43 @@ func runNative(repo, hdir string, vf vectorFile, retries int) ([]nativeRes, erro
 			if len(parts) < 3 {
 				continue
 			}
-			idx, e := strconv.Atoi(parts[1])
-			if e != nil || idx < 0 || idx >= len(out) {
+			k, e := strconv.Atoi(parts[1])
+			if e != nil || k < 0 || k >= len(idxs) {
 				continue
 			}
+			idx := idxs[k]
 			got++
-			msg := ""
+			seenIdx[idx] = true
+			status, msg := parts[2], ""
 			if len(parts) == 4 {
 				msg = parts[3]
 			}
-			if !pending[idx] {
-				continue
+			if raceSeen {
+				if status == "PASS" {
+					status, msg = "ASSERTFAIL", "data race reported by the Go race detector"
+				}
+				raceSeen = false
 			}
-			out[idx] = nativeRes{status: parts[2], msg: msg}
+			out[idx] = nativeRes{status: status, msg: msg}
 			want := vf.Vectors[idx].Expect
-			if (want == "fail" && (parts[2] == "ASSERTFAIL" || parts[2] == "PANIC")) || (want == "pass" && parts[2] == "PASS") {
+			if (want == "fail" && (status == "ASSERTFAIL" || status == "PANIC")) || (want == "pass" && status == "PASS") || attempt >= retries-1 {
 				delete(pending, idx)
 			}
+		}
+		if got < len(idxs) && strings.Contains(text, "fatal error:") {
+			// the process died (e.g. "concurrent map writes"): attribute it to the first vector without a result
+			for _, idx := range idxs {
+				if !seenIdx[idx] {
+					msg := "fatal error"
+					if p := strings.Index(text, "fatal error:"); p >= 0 {
+						msg = strings.SplitN(text[p:], "\n", 2)[0]
+					}
+					out[idx] = nativeRes{status: "PANIC", msg: msg}
+					delete(pending, idx)
+					break
+				}
+			}
+			continue
 		}
 		if got == 0 {
 			if err != nil {
